@@ -189,7 +189,24 @@ func eval1(t *Term, m map[string]uint64, memo map[int]uint64) (uint64, bool) {
 		if math.IsNaN(x) || x >= 9.3e18 || x <= -9.3e18 {
 			return 0, false // unspecified in SMT-LIB
 		}
+		if t.Sort.W < 64 {
+			lim := float64(int64(1) << uint(t.Sort.W-1))
+			if math.Trunc(x) >= lim || math.Trunc(x) < -lim {
+				return 0, false
+			}
+		}
 		return uint64(int64(x)) & mk, true
+	case OFToUBV:
+		x := math.Trunc(f(args[0]))
+		if math.IsNaN(x) || x < 0 || x >= 1.8446744073709552e19 {
+			return 0, false
+		}
+		if t.Sort.W < 64 && x >= float64(uint64(1)<<uint(t.Sort.W)) {
+			return 0, false
+		}
+		return uint64(x) & mk, true
+	case OFRound32:
+		return fb(float64(float32(f(args[0])))), true
 	}
 	return 0, false
 }
